@@ -569,7 +569,11 @@ def build_unit(verif, repo, template_path, canary=False):
                 text = rule_R1(text, [], fired)
                 for o in opts:
                     if o.startswith('prefix='):
-                        text = o[len('prefix='):] + ' ' + text
+                        tk = _tok_code(text); k = 0
+                        while k < len(tk) and tk[k].text == '#':
+                            k = match_close(tk, k + 1) + 1
+                        text = text[:tk[k].start] + o[len('prefix='):] + ' ' + text[tk[k].start:]
+                        fired.append('visibility:' + o[len('prefix='):])
                 u.items.append({'item': '%s %s' % (kind, name), 'file': f, 'line': src.count('\n', 0, it.start) + 1,
                                 'sha256': hashlib.sha256(raw.encode()).hexdigest(), 'rules': fired})
                 emit(text + '\n', 'CODE', '%s:%d' % (f, src.count('\n', 0, it.start) + 1)); i += 1; continue
